@@ -76,7 +76,7 @@ func (propC15) Gen(seed uint64, ex map[string]bool) interface{} {
 	sc.Names = []string{"a", "b", "c", "d"}[:r.Range(1, maxNames)]
 	inMemory := true
 	for _, k := range sc.Loaders {
-		if k == "fs" || k == "compiled" {
+		if k == "fs" || k == "compiled" || k == "chainfs" {
 			inMemory = false
 		}
 	}
@@ -155,7 +155,7 @@ func (propC15) Gen(seed uint64, ex map[string]bool) interface{} {
 	return sc
 }
 
-var c15Kinds = []string{"simts", "simts", "array", "fs", "compiled", "chain"}
+var c15Kinds = []string{"simts", "simts", "array", "fs", "compiled", "chain", "chainfs"}
 
 // ---- loaders: model + real counterpart ----
 
@@ -346,6 +346,12 @@ func (propC15) Run(scI interface{}) (o *Outcome) {
 			l.arrs = []*twig.ArrayLoader{twig.NewArrayLoader(map[string]string{})}
 			l.inner = []map[string]c15File{{}}
 			l.real = twig.NewChainLoader([]twig.Loader{l.arr, l.arrs[0]})
+		case "chainfs":
+			// a chain whose first inner loader reads a directory of the simulated disk (files can really disappear)
+			l.dir = fmt.Sprintf("chn%d", i)
+			l.arrs = []*twig.ArrayLoader{twig.NewArrayLoader(map[string]string{})}
+			l.inner = []map[string]c15File{{}}
+			l.real = twig.NewChainLoader([]twig.Loader{twig.NewFileSystemLoader([]string{l.dir}), l.arrs[0]})
 		case "fs":
 			l.ts = true
 			l.dir = fmt.Sprintf("tpl%d", i)
@@ -402,6 +408,14 @@ func (propC15) Run(scI interface{}) (o *Outcome) {
 				return
 			}
 			l.arr.SetTemplate(name, src)
+		case "chainfs":
+			if second {
+				j := (ver / 3) % len(l.arrs)
+				l.arrs[j].SetTemplate(name, src)
+				l.inner[j][name] = f
+				return
+			}
+			w.FSWrite(l.dir+"/"+name+".twig", []byte(src), w.NowNS())
 		case "fs":
 			w.FSWrite(l.dir+"/"+name+".twig", []byte(src), w.NowNS())
 		case "compiled":
@@ -472,7 +486,7 @@ func (propC15) Run(scI interface{}) (o *Outcome) {
 				o.Probes["loaders_added"]++
 			}
 		case "chainadd":
-			if l := loaders[op.L]; l.kind == "chain" && len(l.arrs) < 4 {
+			if l := loaders[op.L]; (l.kind == "chain" || l.kind == "chainfs") && len(l.arrs) < 4 {
 				a := twig.NewArrayLoader(map[string]string{})
 				l.real.(*twig.ChainLoader).AddLoader(a)
 				l.arrs = append(l.arrs, a)
@@ -534,7 +548,7 @@ func (propC15) Run(scI interface{}) (o *Outcome) {
 					// ArrayLoader has no delete: replace the loader content map entry by re-creating is not possible;
 					// model the "deletion" as unsupported for these kinds (restore the entry)
 					l.files[op.Name] = orig
-				case "fs":
+				case "fs", "chainfs":
 					w.FSRemove(l.dir + "/" + op.Name + ".twig")
 				case "compiled":
 					w.FSRemove(l.dir + "/" + op.Name + ".twig.compiled")
